@@ -193,10 +193,16 @@ func TestHarness(t *testing.T) {
 				emit(guard("bursteof", "json-raw/message", seed, func() SysRecord { return FamBurstEOF(false, seed) }))
 				emit(guard("bursteof", "json-raw/stream", seed, func() SysRecord { return FamBurstEOF(true, seed) }))
 			}
+			if has("linkend") {
+				emit(guard("linkend", "json-raw", seed, func() SysRecord { return FamLinkEnd(job.Seed*31 + int64(i)) }))
+			}
+			if has("enumrace") {
+				emit(guard("enumrace", "json-raw", seed, func() SysRecord { return FamEnumRace(seed) }))
+			}
 			if has("streamtear") {
 				emit(guard("streamtear", "json-raw/stream", seed, func() SysRecord { return FamStreamTear(seed) }))
 			}
-			for _, f := range []string{"values", "errors", "closures", "nest", "inforremotes"} {
+			for _, f := range []string{"values", "errors", "closures", "nest", "inforremotes", "cancel", "ctxend"} {
 				if !has(f) {
 					continue
 				}
@@ -238,7 +244,7 @@ func TestHarness(t *testing.T) {
 				stream bool
 				chunk  int
 			}{{false, 0}, {true, 1}, {true, -1}, {true, 0}} {
-				for _, f := range []string{"values", "errors", "closures"} {
+				for _, f := range []string{"values", "errors", "closures", "ctxend"} {
 					emit(runFam(f, jsonRawCodec(), st.stream, st.chunk, seed, 10))
 					emit(runFam(f, jsonBytesCodec(), st.stream, st.chunk, seed, 10))
 					emit(runFam(f, cborRawCodec(), st.stream, st.chunk, seed, 10))
@@ -279,6 +285,10 @@ func runFam0[T any](f string, c Codec[T], stream bool, chunk int, seed int64, n 
 		return FamErrors(c, stream, chunk, seed, n)
 	case "closures":
 		return FamClosures(c, stream, chunk, seed, n)
+	case "cancel":
+		return FamCancel(c, stream, chunk, seed)
+	case "ctxend":
+		return FamCtxEnd(c, stream, chunk, seed)
 	default:
 		return FamNest(c, stream, chunk, seed)
 	}
